@@ -46,6 +46,8 @@ def obligations(tier):
            [F['c2l'], 'replicat.repository:Repository._snapshot_digest_to_location_parts'], module=L, func='n0_format', timeout=300),
         Ob('G.e', 'E', 'delete/clean with the real crypto from every state of the quick vector', '9 owner pairs x 16 ref matrices x 3 orphan codes x 5 commands = 2160',
            [F['del'], F['clean']], module=G, func='g_quick', timeout=600, shards=8),
+        Ob('G.e3', 'E', 'three snapshots (a remaining one sharing chunks with deleted ones): delete both / delete first / clean', '3 owners of the third x 64 ref matrices x 3 commands = 576',
+           [F['del'], F['clean']], module=G, func='g_quick3', timeout=600, shards=2),
         Ob('G.many', 'E', 'repositories holding up to 43 snapshots (> 10 x concurrency): clean/delete safe and complete', '6 snapshot counts x 2 concurrency x 3 commands x 3 reference patterns = 108',
            [F['del'], F['clean'], F['load']], module=G, func='g_many', timeout=900),
         Ob('G.u', 'E', 'same for an unencrypted repository (one family)', '64 ref matrices (2x3) x 3 x 5 = 960', [F['del'], F['clean']],
